@@ -104,8 +104,11 @@ def run(ctx, rep):
     rep.consult(m.loc(TAB, lo) + ' Tableau.__listen_on')
     # history: who appends
     for mod, qn, fn in astq.iter_functions(m, 'pytableaux.proof'):
+        localnames = {t.id for t, _st in astq.stores(fn, nested=False) if isinstance(t, ast.Name)}
         for c in astq.calls(fn, nested=False):
             nm = astq.call_name(c)
+            if isinstance(c.func, ast.Attribute) and isinstance(c.func.value, ast.Name) and c.func.value.id in localnames:
+                continue        # a list built by this call, not the tableau's (those are closure variables / attributes)
             if nm == 'history.append':
                 ok = (mod, qn) == (TAB, 'Tableau.__listen_on.<locals>.after_rule_apply')
                 rep.instance(R2, ok=ok, nontrivial=('history.append', qn))
@@ -243,6 +246,21 @@ def run(ctx, rep):
             rep.finding(R3, f'C16.R3/_nodes-store/{mod}:{qn}', m.loc(mod, st), qn, 'replaces a branch\'s node sequence')
 
     R4 = rep.rule('C16.R4', 'forks extend their parent: Tableau.branch copies the parent; per-branch caches copy the parent\'s entry')
+    # which branch a fork's parent *is*: the rule engine's AdzHelper._apply folded with Tableau.branch (C01.R4) -- every branch a step
+    # creates is forked from the branch the rule was applied to (not from a sibling created in the same step) and extends its nodes
+    from ..core import Report as _Report
+    from . import c01 as _c01
+    _sub = _Report('C01', rep.tier, rep.repo)
+    _c01.r4(ctx, _sub)
+    _n = 0
+    for _f in _sub.findings:
+        if 'AdzHelper._apply' in _f.key:
+            _n += 1
+            rep.instance(R4, ok=False, nontrivial=_f.key)
+            rep.finding(R4, _f.key.replace('C01.R4/', 'C16.R4/C01.R4/', 1), _f.where, _f.construct, _f.msg + ' -- the recorded parent of a new branch is the branch the rule was applied to')
+    for _ in range(max(0, 6 - _n)):
+        rep.instance(R4, ok=True)
+    rep.consulted |= _sub.consulted
     tb = m.func(TAB, 'Tableau.branch')
     rep.consult(m.loc(TAB, tb) + ' Tableau.branch')
     added = []
